@@ -127,13 +127,13 @@ func judgeErrors(res *runner.Result) []finding {
 func judgeResult(res *runner.Result, repo string) []finding {
 	switch res.Outcome {
 	case "panic":
-		site, fn := chaos.PanicSite(res.Stack, repo)
 		top := res.Top
 		if top == "" {
 			top = "-"
 		}
-		what := fmt.Sprintf("panic %q escaped (phase %s) at %s in %s; innermost program call: %s", chaos.HeadS(res.Panic, 200), res.Phase, site, fn, top)
-		return []finding{{"panic:" + site + ":" + top, what}}
+		key, site := chaos.PanicKey(res.Stack, repo, res.Panic, top)
+		what := fmt.Sprintf("panic %q escaped (phase %s) at %s; innermost program call: %s", chaos.HeadS(res.Panic, 200), res.Phase, site, top)
+		return []finding{{key, what}}
 	case "rejected":
 		return judgeErrors(res)
 	}
@@ -360,6 +360,9 @@ func runChaos(run *vc.Run, h *chaos.Harness, g *chaos.Gen, repo string, n int) {
 					noteFirst(f.Key, p)
 					if strings.HasPrefix(f.Key, "panic:") {
 						run.Seen("panic_sites", strings.TrimPrefix(f.Key[:strings.LastIndex(f.Key, ":")], "panic:"))
+					}
+					if strings.HasPrefix(f.Key, "fatal:") {
+						run.Seen("fatal_sites", f.Key)
 					}
 					run.Violation(f.Key, f.What, w)
 				}
